@@ -177,14 +177,14 @@ func genWriter(t *rapid.T) Thread {
 	th := Thread{Role: "writer"}
 	n := rapid.IntRange(3, 12).Draw(t, "nops")
 	th.Ops = append(th.Ops, Op{K: "wcreate", A: rapid.IntRange(0, 3).Draw(t, "sb"), P: pauseGen.Draw(t, "p")})
-	th.Ops = append(th.Ops, Op{K: "wds", A: rapid.IntRange(0, 4).Draw(t, "type"), B: rapid.IntRange(0, 60).Draw(t, "n"), P: pauseGen.Draw(t, "p")})
+	th.Ops = append(th.Ops, Op{K: "wds", A: rapid.IntRange(0, 6).Draw(t, "type"), B: rapid.IntRange(0, 60).Draw(t, "n"), P: pauseGen.Draw(t, "p")})
 	for len(th.Ops) < n {
 		k := rapid.SampledFrom([]string{"wds", "wgrp", "wattr", "wattr", "wattr", "wattrs", "dattr", "wclose", "wcreate"}).Draw(t, "k")
-		op := Op{K: k, A: rapid.IntRange(0, 4).Draw(t, "a"), B: rapid.IntRange(0, 60).Draw(t, "b"), P: pauseGen.Draw(t, "p")}
+		op := Op{K: k, A: rapid.IntRange(0, 6).Draw(t, "a"), B: rapid.IntRange(0, 60).Draw(t, "b"), P: pauseGen.Draw(t, "p")}
 		th.Ops = append(th.Ops, op)
 		if k == "wclose" {
 			th.Ops = append(th.Ops, Op{K: "wcreate", A: rapid.IntRange(0, 3).Draw(t, "sb")},
-				Op{K: "wds", A: rapid.IntRange(0, 4).Draw(t, "type"), B: rapid.IntRange(0, 60).Draw(t, "n")})
+				Op{K: "wds", A: rapid.IntRange(0, 6).Draw(t, "type"), B: rapid.IntRange(0, 60).Draw(t, "n")})
 		}
 	}
 	return th
@@ -301,6 +301,7 @@ func genCase(t *rapid.T) Case {
 		// driven from several goroutines get a full share of the programs.
 		multiLife := rapid.IntRange(0, 1).Draw(t, "multi_lifecycle") == 0
 		userEval := rapid.IntRange(0, 9).Draw(t, "user_eval") < 6
+		detDirect := rapid.IntRange(0, 2).Draw(t, "detector_direct") == 0
 		for i := 0; i < n; i++ {
 			th := Thread{Role: "user"}
 			no := rapid.IntRange(4, 30).Draw(t, "nops")
@@ -310,6 +311,11 @@ func genCase(t *rapid.T) Case {
 			}
 			if i == 0 || multiLife {
 				kinds = append(kinds, "start", "stop")
+			}
+			if detDirect {
+				// the workload detector the rebalancer feeds is also used directly (recording, queries, Close): documented as
+				// safe for concurrent use; a closed detector refuses or ignores, it never fails
+				kinds = append(kinds, "drec", "drec", "dfeat", "dclose")
 			}
 			if i == 0 {
 				th.Ops = append(th.Ops, Op{K: "start"})
